@@ -37,6 +37,8 @@ def configs(tier):
                 if max(n1, n2) <= (2 if q else 3) and n1 + n2 <= 5:
                     for ri in (0, 1):
                         for mk in ("omit", "sym"):
+                            if q and mk == "sym" and n1 + n2 > 3:
+                                continue
                             yield dict(name="spike-%s-ri%d-m%s-%d+%d" % (be, ri, mk, n1, n2), what="spike", backend=be,
                                        ri=ri, m=mk, n1=n1, n2=n2, fork=True, validate=3,
                                        cost=9 ** (n1 + n2) * (2 if mk == "sym" else 1),
@@ -50,8 +52,8 @@ def configs(tier):
                 if kind != "disc" and 0 in sh:
                     continue
                 for iv in ("none", "sub"):
-                    if be == "pyx" and iv == "none" and kind != "disc":
-                        pass
+                    if q and iv == "sub" and sum(sh) > (4 if kind == "disc" else 5):
+                        continue
                     yield dict(name="multi-%s-%s-%s-%s" % (be, kind, "".join(map(str, sh)), iv), what="multi",
                                backend=be, kind=kind, shape=list(sh), iv=iv, K=3, fork=(kind == "lin"),
                                cost=30 * 4 ** sum(sh), split_forks=(7 if sum(sh) >= 5 else None), validate=3)
